@@ -251,6 +251,40 @@ def judge_multi_point(case):
     return core.result("multi-point", digest=core.digest_of([core.fhex(float(z)) for f in curve.partial_fluxes for z in f]), viol=v)
 
 
+def judge_default_precision(case):
+    """the library's DEFAULT precision, very selective membranes, a permeate temperature: the curve still reports the membrane's
+    permeance of the major component to 1 % (the default precision limits the permeate composition to 5e-5, the driving force of the
+    major component is well-conditioned)."""
+    mix = U.get_mixture(case["mixture"])
+    t, x, P = case["T"], case["x"], case["P"]
+    mode = tuple(case["mode"])
+    kw = U.permeate_kwargs(mode, t)
+    comp = U.composition(x, "weight", mix)
+    mem = U.make_membrane(mix, P[0], P[1], t_ref=t, ea1=25000.0, ea2=60000.0)
+    pv = solver.ObservedPV(membrane=mem, mixture=mix).observe(budget=300000)
+    try:
+        st, curve = core.call(pv.ideal_diffusion_curve, feed_temperature=t, compositions=[comp], **kw)
+    except (solver.Lasso, solver.Budget):
+        return core.result("not-judged:no-convergence", nontrivial=False)
+    if st != "ok":
+        return core.result("not-judged:raised", nontrivial=False)
+    J = (float(curve.partial_fluxes[0][0]), float(curve.partial_fluxes[0][1]))
+    if not all(j > 0 and math.isfinite(j) for j in J):
+        return core.result("not-judged:backflow", nontrivial=False)
+    major = 0 if J[0] >= J[1] else 1
+    yJ = J[0] / (J[0] + J[1])
+    pf = U.pyvaporation.get_partial_pressures(t, mix, comp)
+    q = U.pyvaporation.get_partial_pressures(kw["permeate_temperature"], mix, U.Composition(p=yJ, type="weight"))
+    drive = abs(float(pf[major]) - float(q[major])) / max(abs(float(pf[major])), 1e-300)
+    if drive < 0.2:
+        return core.result("not-judged:ill-conditioned", nontrivial=False)
+    R = float(curve.permeances[0][major].value)
+    v = []
+    if not core.close(R, P[major], 1e-2):
+        v.append(core.viol("C09/inversion/default_precision", "default precision, permeances %r, mode %r: the curve reports %r for the major component (supplied %r)" % (tuple(P), mode, R, P[major])))
+    return core.result("inverted", digest=core.digest_of([core.fhex(R)]), viol=v)
+
+
 def judge_shared_objects(case):
     """the caller owns its Permeance objects: ONE object may serve both components of a pair, and the same objects may be handed to a
     second curve of another mixture; every curve exposes exact conversions and the caller's objects stay as they were."""
@@ -338,6 +372,10 @@ def main(tier, seed):
                                                  "basis": ["weight", "molar"], "T": core.lat([333.15], seed), "unit": [KG, "SI"] if q else [KG, "SI", "GPU"]},
                     lambda c: U.get_mixture(c["mixture"]).nrtl_params is not None)
     core.run_space(rep, mp, judge_multi_point)
+    dp = core.Space("default_precision_selective_membranes", {"mixture": ["H2O_EtOH", "S2"] if q else ["H2O_EtOH", "MeOH_DMC", "S2", "S5"], "mode": [("T", -60.0), ("T", -25.0)],
+                                                               "P": [(0.5, 2e-6), (3e-6, 0.8), (1.0, 1e-6), (1e-2, 1e-4)], "x": core.lat([0.1, 0.5, 0.9], seed), "T": core.lat([313.15, 353.15], seed)},
+                    lambda c: U.get_mixture(c["mixture"]).nrtl_params is not None)
+    core.run_space(rep, dp, judge_default_precision)
     three = core.Space("mixed_unit_curves_3pt", {"mixture": ["H2O_EtOH"], "T": [333.15], "xs": [[0.1, 0.5, 0.9]],
                                                  "units": [list(u) for u in itertools.product([KG, "SI", "GPU"], repeat=6)] if not q else
                                                           [[a, a, b, b, c, c] for a in (KG, "SI", "GPU") for b in (KG, "SI", "GPU") for c in (KG, "SI", "GPU")],
@@ -347,7 +385,11 @@ def main(tier, seed):
 
 
 def replay(body):
-    r = (judge_equal_numbers if body.get("space") == "equal_numbers_in_unit" else judge_mixed_units if str(body.get("space", "")).startswith("mixed_unit") else judge)(body["case"])
+    fn = {"equal_numbers_in_unit": judge_equal_numbers, "shared_permeance_objects": judge_shared_objects, "multi_point_ideal_curves": judge_multi_point,
+          "default_precision_selective_membranes": judge_default_precision}.get(body.get("space"))
+    if fn is None:
+        fn = judge_mixed_units if str(body.get("space", "")).startswith("mixed_unit") else judge
+    r = fn(body["case"])
     for v in r["viol"]:
         print("violation key=%s%s: %s" % (v["key"], " [known %s]" % v["known"] if v["known"] else "", v["msg"]))
     print("replayed: outcome=%s violations=%d" % (r["outcome"], len(r["viol"])))
